@@ -399,76 +399,53 @@ theorem lemma_outs_length (r B : Int) (s : Bucket) (ts : List Int) : (outs r B s
   | nil => rfl
   | cons t ts ih => simp only [outs, List.length_cons, ih]
 
-theorem lemma_outs_take (r B : Int) (s : Bucket) (ts : List Int) (n : Nat) :
-    (outs r B s ts).take n = outs r B s (ts.take n) := by
-  induction ts generalizing s n with
-  | nil => simp [outs]
-  | cons t ts ih =>
-    cases n with
-    | zero => simp [outs]
-    | succ n => simp only [outs, List.take_succ_cons, ih]
+theorem lemma_run_snoc (r B : Int) (s0 : Bucket) (pre : List Int) (t : Int) :
+    run r B s0 (pre ++ [t]) =
+      ((allow r B (run r B s0 pre).1 t).1, (run r B s0 pre).2 ++ [(allow r B (run r B s0 pre).1 t).2.allowed]) := by
+  induction pre generalizing s0 with
+  | nil => simp [run]
+  | cons a pre ih => simp only [List.cons_append, run, ih, List.cons_append]
 
-theorem lemma_min_max (l : List Int) : ∀ t ∈ l, minL l ≤ t ∧ t ≤ maxL l := by
-  induction l with
-  | nil => simp
-  | cons a rest ih =>
-    cases rest with
-    | nil => intro t ht; simp at ht; subst ht; simp [minL, maxL]
-    | cons b rest' =>
-      intro t ht
-      have hmin : minL (a :: b :: rest') = min a (minL (b :: rest')) := rfl
-      have hmax : maxL (a :: b :: rest') = max a (maxL (b :: rest')) := rfl
-      rw [hmin, hmax]
-      rcases List.mem_cons.mp ht with rfl | ht
-      · omega
-      · have := ih t ht
-        omega
-
-theorem lemma_take_zip {α β} (a : List α) (b : List β) (n : Nat) : (a.zip b).take n = (a.take n).zip (b.take n) := by
-  induction a generalizing b n with
-  | nil => simp
-  | cons x a ih =>
-    cases b with
-    | nil => simp
-    | cons y b =>
-      cases n with
-      | zero => simp
-      | succ n => simp [ih]
-
-theorem lemma_count_allowed (r B : Int) (s : Bucket) (l : List Int) :
-    ((l.zip (outs r B s l)).filter (·.2.allowed)).length = countTrue (run r B s l).2 := by
+theorem lemma_countTrue_snoc (l : List Bool) (b : Bool) :
+    (countTrue (l ++ [b]) : Int) = countTrue l + (if b then 1 else 0) := by
   unfold countTrue
-  induction l generalizing s with
+  cases b <;> simp [List.filter_append]
+
+/-- the forward scan of the admission bound succeeds on the model's answers: `pre` are the calls
+    already scanned (their timestamps within `[lo, hi]`), `suf` the calls still to come -/
+theorem lemma_boundScan (r B : Int) (hr : 0 ≤ r) (hB : 0 ≤ B) (s0 : Bucket) (pre suf : List Int) (lo hi : Int)
+    (hcont : ∀ t ∈ pre, lo ≤ t ∧ t ≤ hi) :
+    boundScan r B (countTrue (run r B s0 pre).2) lo hi (suf.zip (outs r B (run r B s0 pre).1 suf)) = true := by
+  induction suf generalizing pre lo hi with
   | nil => rfl
-  | cons t l ih =>
-    simp only [outs, run, List.zip_cons_cons, List.filter_cons]
-    cases h : (allow r B s t).2.allowed
-    · simp only [Bool.false_eq_true, if_false, id]
-      exact ih _
-    · simp only [if_true, id, List.length_cons]
-      rw [ih]
+  | cons t rest ih =>
+    have hsn := lemma_run_snoc r B s0 pre t
+    have hcnt : (countTrue (run r B s0 (pre ++ [t])).2 : Int) =
+        countTrue (run r B s0 pre).2 + (if (allow r B (run r B s0 pre).1 t).2.allowed then 1 else 0) := by
+      rw [hsn]; exact lemma_countTrue_snoc _ _
+    have hst : (run r B s0 (pre ++ [t])).1 = (allow r B (run r B s0 pre).1 t).1 := by rw [hsn]
+    have hcont' : ∀ u ∈ pre ++ [t], min lo t ≤ u ∧ u ≤ max hi t := by
+      intro u hu
+      rcases List.mem_append.mp hu with h | h
+      · have := hcont u h; omega
+      · simp at h; subst h; omega
+    have hbound := bucket_never_over_admits r B hr hB s0 (pre ++ [t]) (min lo t) (max hi t - min lo t) (by omega)
+      (fun u hu => by have := hcont' u hu; omega)
+    have ih' := ih (pre ++ [t]) (min lo t) (max hi t) hcont'
+    rw [hst, hcnt] at ih'
+    rw [hcnt] at hbound
+    simp only [outs, List.zip_cons_cons, boundScan, ih', Bool.and_true, decide_eq_true_eq]
+    exact hbound
 
 /-- the admission bound holds on every prefix of a key's answers, from any entry state -/
 theorem lemma_boundFrom (r B : Int) (hr : 0 ≤ r) (hB : 0 ≤ B) (s : Bucket) (ts : List Int) :
     boundFrom r B (ts.zip (outs r B s ts)) = true := by
-  unfold boundFrom
-  rw [List.all_eq_true]
-  intro n _
-  simp only [decide_eq_true_eq]
-  have htake : (ts.zip (outs r B s ts)).take n = (ts.take n).zip (outs r B s (ts.take n)) := by
-    rw [lemma_take_zip, lemma_outs_take]
-  rw [htake]
-  have hts : ((ts.take n).zip (outs r B s (ts.take n))).map (·.1) = ts.take n := by
-    rw [List.map_fst_zip]; rw [lemma_outs_length]; exact Nat.le_refl _
-  rw [hts, lemma_count_allowed]
-  cases hl : ts.take n with
-  | nil => simp [run, countTrue, minL, maxL]; omega
-  | cons a l =>
-    have hmm := lemma_min_max (a :: l)
-    have hT : 0 ≤ maxL (a :: l) - minL (a :: l) := by
-      have := hmm a (List.mem_cons_self ..); omega
-    exact bucket_never_over_admits r B hr hB s (a :: l) (minL (a :: l)) (maxL (a :: l) - minL (a :: l)) hT
-      (fun t ht => by have := hmm t ht; omega)
+  cases ts with
+  | nil => rfl
+  | cons t rest =>
+    have := lemma_boundScan r B hr hB s [] (t :: rest) t t (by simp)
+    simp only [outs, List.zip_cons_cons] at this ⊢
+    simpa [boundFrom, run, countTrue] using this
 
 theorem lemma_boundOK (r B : Int) (hr : 0 ≤ r) (hB : 0 ≤ B) (s : Bucket) (ts : List Int) :
     boundOK r B (ts.zip (outs r B s ts)) = true := by
